@@ -33,7 +33,7 @@ def cli(argot, d, timeout=600):
 
 def run(chk):
     tier = chk.tier
-    failed = chk.prove("theories/Properties/C01.v")
+    failed = chk.prove(["theories/Properties/C01.v", "theories/Properties/C01Sem.v"])
     from props import visit_tie
     visit_tie.run(chk)
     C.build()
